@@ -154,12 +154,13 @@ func runEntries(text string) (res []outcome, hung int) {
 }
 
 var reIndex = regexp.MustCompile(`index out of range \[(\d+)\] with length (\d+)`)
+var reProcAfterClose = regexp.MustCompile(`(?s)\)\].*\[ *\(`)
 var reSlice = regexp.MustCompile(`slice bounds out of range \[(\d+):(\d+)\]`)
 
 // faultSite recognises the five places of jp/parse.go where the pinned tree reports malformed input through a
 // runtime fault (known finding C06jp-fault-as-error): the buffer ends right after an opening quote (readStr),
 // right after the `/` that opens a regex (readRegex), right after a backslash in a quoted string (readEscStr),
-// right after a function or operator name (readOpArgs); a `)]` stands before the `[(` of a procedure
+// right after a function or operator name (readOpArgs); a `)]` stands before the `[(` (or `[ (`) of a procedure
 // (readProc). Anything else is not known.
 func faultSite(entryName, text, msg string) string {
 	buf := text
@@ -194,7 +195,7 @@ func faultSite(entryName, text, msg string) string {
 				return "readRegex"
 			}
 		}
-		if i := strings.Index(buf, ")]"); i >= 0 && a > b && strings.Contains(buf[i:], "[(") {
+		if a > b && reProcAfterClose.MatchString(buf) {
 			return "readProc"
 		}
 	}
